@@ -62,7 +62,9 @@ def main():
     keys = rng.choice([["a"], ["a", "b"], ["k29", "k74"]])
     n = rng.choice([2, 3, 4])
     ps = [ctx.Process(target=worker, args=(cacher, keys, rng.randrange(1 << 30), log, 8), daemon=True) for _ in range(n)]
-    for p in ps: p.start()
+    for i, p in enumerate(ps):
+        os.environ["PYTHONHASHSEED"] = str(i + 1)        # every worker interpreter salts its str hashes differently
+        p.start()
     deadline = time.time() + 60
     for p in ps: p.join(max(0, deadline - time.time()))
     hung = [p.pid for p in ps if p.is_alive()]
